@@ -128,6 +128,13 @@ class DynamicEndmarkerField(Field):
             decode_state.cursor_byte_position = tmp_cursor
 
             result.append(self.structure.decode_from_pdu(decode_state))
+            if decode_state.cursor_byte_position <= tmp_cursor:
+                # an item which does not consume any data would be
+                # repeated forever
+                odxraise(
+                    f"The items of dynamic endmarker field {self.short_name} "
+                    f"do not consume any data", DecodeError)
+                break
 
         decode_state.origin_byte_position = orig_origin
 
